@@ -40,7 +40,7 @@ dividend's type and length, with the storage invariant re-established. -/
 theorem C02_operators (v : Vec) (x : Api.Rhs) (hv : v.Inv) (hx : x.Inv) :
     (x.spec.val = 0 → Api.divRemOp v x = .panic) ∧
     (x.spec.val ≠ 0 → ∃ q r, Api.divRemOp v x = .ok (q, r) ∧ q.Inv ∧ r.Inv ∧
-        q.abs = v.abs.div x.spec ∧ r.abs = v.abs.rem x.spec) := by
+        q.abs = v.abs.div x.spec ∧ r.abs = v.abs.rem x.spec ∧ q.ty = v.ty ∧ r.ty = v.ty) := by
   obtain ⟨hxa, hxe⟩ := Api.Rhs.any_ok v x hx
   unfold Api.divRemOp Api.divRemK
   cases v with
@@ -48,14 +48,15 @@ theorem C02_operators (v : Vec) (x : Api.Rhs) (hv : v.Inv) (hx : x.Inv) :
     have r := Bvf.divRem_refines s x.kind (x.any (.f w s)) hv.1.two_le hv.2 hxa.div (hxa.compat hv.1)
     rw [hxe] at r
     refine ⟨fun h0 => by simp only [r.1 h0, Res.map], fun hn => ?_⟩
-    obtain ⟨q, rr, e, hq, hr, aq, ar, _, _⟩ := r.2 hn
-    exact ⟨.f w q, .f w rr, by simp only [e, Res.map], ⟨hv.1, hq⟩, ⟨hv.1, hr⟩, aq, ar⟩
+    obtain ⟨q, rr, e, hq, hr, aq, ar, sq, sr⟩ := r.2 hn
+    exact ⟨.f w q, .f w rr, by simp only [e, Res.map], ⟨hv.1, hq⟩, ⟨hv.1, hr⟩, aq, ar,
+      by simp only [Vec.ty, sq], by simp only [Vec.ty, sr]⟩
   | d s =>
     have r := Bvd.divRem_refines' s (x.any (.d s)) hv hxa.div (hxa.compat wok64)
     rw [hxe] at r
     refine ⟨fun h0 => by simp only [r.1 h0, Res.map], fun hn => ?_⟩
     obtain ⟨q, rr, e, hq, hr, aq, ar⟩ := r.2 hn
-    exact ⟨.d q, .d rr, by simp only [e, Res.map], hq, hr, aq, ar⟩
+    exact ⟨.d q, .d rr, by simp only [e, Res.map], hq, hr, aq, ar, rfl, rfl⟩
   | a b =>
     cases b with
     | fixed s =>
@@ -63,13 +64,13 @@ theorem C02_operators (v : Vec) (x : Api.Rhs) (hv : v.Inv) (hx : x.Inv) :
       rw [hxe] at r
       refine ⟨fun h0 => by simp only [r.1 h0, Res.map], fun hn => ?_⟩
       obtain ⟨q, rr, e, hq, hr, aq, ar, sq, sr⟩ := r.2 hn
-      exact ⟨.a (.fixed q), .a (.fixed rr), by simp only [e, Res.map], ⟨hq, sq.trans hv.2⟩, ⟨hr, sr.trans hv.2⟩, aq, ar⟩
+      exact ⟨.a (.fixed q), .a (.fixed rr), by simp only [e, Res.map], ⟨hq, sq.trans hv.2⟩, ⟨hr, sr.trans hv.2⟩, aq, ar, rfl, rfl⟩
     | dynamic s =>
       have r := Bvd.divRem_refines' s (x.any (.a (.dynamic s))) hv hxa.div (hxa.compat wok64)
       rw [hxe] at r
       refine ⟨fun h0 => by simp only [r.1 h0, Res.map], fun hn => ?_⟩
       obtain ⟨q, rr, e, hq, hr, aq, ar⟩ := r.2 hn
-      exact ⟨.a (.dynamic q), .a (.dynamic rr), by simp only [e, Res.map], hq, hr, aq, ar⟩
+      exact ⟨.a (.dynamic q), .a (.dynamic rr), by simp only [e, Res.map], hq, hr, aq, ar, rfl, rfl⟩
 
 theorem Vec.Inv.bv {b : Bv} (h : (Vec.a b).Inv) : div_BvInv b := by
   cases b with
